@@ -111,11 +111,12 @@ def roundtrip_cases(tier):
             (b'00:00:00', b'23:59:59', b'12:30:01'), (b'+0000', b'-0000', b'+0530', b'-1200', b'+1400')):
         yield 'DateTime', b'"' + day + b'-' + mon + b'-' + year + b' ' + hh + b' ' + tz + b'"', None, None
     names = ['a', 'Sent', 'a b', 'a&b', '&', '&-', 'é', 'aé', 'éa', 'é&é', '日本語', 'a/日本/b', '\U0001f600', 'a\U0001f600b',
-             '~peter/mail/台北/日本語', 'x' * 100, 'é' * 50, '\x01', 'a\x7fb', 'a\tb', 'inbox', 'INBOX', 'Inbox/x', '-', 'a-', '&a',
+             '~peter/mail/台北/日本語', 'x' * 100, 'é' * 50, '\x01', 'a\x7fb', 'a\tb', 'inbox', 'INBOX', 'Inbox/x', 'ınbox', 'ınbox/x', 'İnbox', '-', 'a-', '&a',
              'a b', '\ud800' if False else 'z', 'a"b', 'a\\b', '%', '*']
     for nm in names:
         raw = mutf7_encode(nm)
-        want = 'INBOX' if nm.upper() == 'INBOX' else nm       # INBOX is case-insensitive (RFC 3501 5.1)
+        # INBOX is case-insensitive (RFC 3501 5.1) -- in US-ASCII, as every ABNF string: 'ınbox' (U+0131) is another name
+        want = 'INBOX' if nm.isascii() and nm.upper() == 'INBOX' else nm
         yield 'Mailbox', quote(raw), want, True
         yield 'Mailbox', b'{%d+}\r\n' % len(raw) + raw, want, True
     for a in (b'FLAGS', b'flags', b'UID', b'BODY', b'BODY[]', b'BODY.PEEK[]', b'body.peek[text]', b'BODY[1.2.MIME]', b'BODY[HEADER]',
@@ -202,7 +203,7 @@ def check_case(tname, wire, expected, expect_parse):
                 dec = mutf7_decode(inner) if inner is not None else None
             except Exception:   # noqa
                 dec = None
-            want = 'INBOX' if expected.upper() == 'INBOX' else expected
+            want = 'INBOX' if expected.isascii() and expected.upper() == 'INBOX' else expected
             if dec != want:
                 errs.append(f'Mailbox {expected!r:.40} is serialised as {b2[:60]!r}, which decodes to {dec!r:.40}')
     if tname == 'SequenceSet' and not errs:
